@@ -74,6 +74,15 @@ def slot (t : Table K V) (i : Nat) : Slot K V := t.getD i pristine
 /-- `table[i] = s` -/
 def upd (t : Table K V) (i : Nat) (s : Slot K V) : Table K V := t.setIfInBounds i s
 
+/-- `table[i].hop_info = h` -/
+def setHop (t : Table K V) (i : Nat) (h : BitVec W) : Table K V := upd t i { slot t i with hop := h }
+
+/-- `table[i].key = k` -/
+def setKey (t : Table K V) (i : Nat) (k : Option K) : Table K V := upd t i { slot t i with key := k }
+
+/-- `table[i].value = v` -/
+def setVal (t : Table K V) (i : Nat) (v : V) : Table K V := upd t i { slot t i with val := v }
+
 /-- `(a - b)` in `uint32_t` arithmetic followed by `wrap_pos` — as a residue modulo `N`. -/
 def subWrap (N a b : Nat) : Nat := (a + (N - b % N)) % N
 
@@ -129,11 +138,11 @@ def findCloser (N : Nat) (clr : Bool) (t : Table K V) (fp : Nat) : Nat → Optio
     match firstBit h (cd + 1) 0 with
     | some i =>
       let hp := (c + i) % N                        -- hop_position
-      let src := slot t hp
-      let t1 := upd t fp { slot t fp with key := src.key, val := src.val }
-      let t2 := upd t1 c { slot t1 c with hop := (h &&& ~~~(1#W <<< i)) ||| (1#W <<< (cd + 1)) }
-      let t3 := if clr then upd t2 hp { slot t2 hp with key := none } else t2
-      some (hp, t3)
+      let t1 := setKey t fp (slot t hp).key        -- table[free_position].key = table[hop_position].key
+      let t2 := setVal t1 fp (slot t1 hp).val      -- table[free_position].value = table[hop_position].value
+      let t3 := setHop t2 c ((h &&& ~~~(1#W <<< i)) ||| (1#W <<< (cd + 1)))
+      let t4 := if clr then setKey t3 hp none else t3   -- fix F25: table[hop_position].key = INVALIDENTRY
+      some (hp, t4)
     | none => findCloser N clr t fp cd
 
 inductive Rc | ok | full
@@ -145,9 +154,10 @@ def displace (N : Nat) (clr : Bool) (h : Nat) (k : K) (v : V) :
   | 0, t, _, _ => (.full, t)
   | f + 1, t, fp, fd =>
     if fd < W then
-      let t1 := upd t fp { slot t fp with val := v, key := some k }
-      let t2 := upd t1 h { slot t1 h with hop := (slot t1 h).hop ||| (1#W <<< fd) }
-      (.ok, t2)
+      let t1 := setVal t fp v                      -- table[free_pos].value = value
+      let t2 := setKey t1 fp (some k)              -- table[free_pos].key = key
+      let t3 := setHop t2 h ((slot t2 h).hop ||| (1#W <<< fd))
+      (.ok, t3)
     else
       match findCloser N clr t fp (W - closerStartSub) with
       | none => (.full, t)
@@ -163,7 +173,7 @@ structure PutRes (K V : Type) where
 def put (N A : Nat) (hash : K → Nat) (clr : Bool) (t : Table K V) (k : K) (v : V) : PutRes K V :=
   let h := hash k
   match lookup N hash t k with
-  | some pos => ⟨.ok, (slot t pos).val, upd t pos { slot t pos with val := v }⟩
+  | some pos => ⟨.ok, (slot t pos).val, setVal t pos v⟩
   | none =>
     let r := probe N t A 0 h
     if r.1 < A then
@@ -178,10 +188,10 @@ def remove (N : Nat) (hash : K → Nat) (t : Table K V) (k : K) : Option V × Ta
   match scan N t k W hop h with
   | some pos =>
     let v := (slot t pos).val
-    let t1 := upd t pos { slot t pos with key := none }
-    let t2 := upd t1 pos { slot t1 pos with val := default }
-    let d := subWrap N pos h
-    (some v, upd t2 h { slot t2 h with hop := hop &&& ~~~(1#W <<< d) })
+    let t1 := setKey t pos none                    -- table[pos].key = INVALIDENTRY
+    let t2 := setVal t1 pos default                -- memset(&table[pos].value, 0, …)
+    let d := subWrap N pos h                       -- distance = wrap_pos(pos - hash_pos)
+    (some v, setHop t2 h (hop &&& ~~~(1#W <<< d)))
   | none => (none, t)
 
 /-- The loops of `remove_routing_info_from_peer` / `remove_peer_from_routing_table` (router.c):
